@@ -16,6 +16,8 @@ FAMILY_VARIANTS = {
     "order_rows": ALLV + POLV,
     "conflict_ortho": ALLV + POLV,
     "completion_chain": ALLV + POLV,
+    "kleene_defer": ["B", "B11", "M"],       # Kleene triggers: run-time-speed policies with flat_fold dispatch (C18 quantifier)
+    "exit_points_plain": ALLV + ["B11", "B11+p1", "B11+p2", "B11+p3", "B+p1", "B+p3", "M+p2", "M+p3"],
     "flags": ALLV + ["B+p3", "M+p3"],
     "fe_player": ["B", "B+feR", "B+feR2", "B+feP", "B+feE", "BC+feE", "M", "M+feR", "M+feP", "M+feE"],
     "fe_conflict": ["B", "B+feR", "B+feR2", "B+feP", "B+feE", "BC+feE", "M", "M+feR", "M+feP", "M+feE"],
@@ -28,7 +30,7 @@ FAMILY_VARIANTS = {
 # exit-point rows with action+guard): the families it compiles -- "back11 where it accepts the same declarations"
 B11_FAMS = ["ids_mixed_none", "ids_mixed_always", "ids_mixed_shallow", "conflict_flat", "nest_inactive", "queue_flat", "queue_nested", "defer_basic", "defer_action", "completion_chain",
             "blocking", "flags", "storage", "fork_entry", "history_none", "history_always", "history_shallow", "serial_nested",
-            "fe_player", "fe_conflict"]
+            "fe_player", "fe_conflict", "exit_points_plain"]
 
 
 # back with queue_container_circular (capacity 256 set by the adapter, "sufficient" for every plan)
@@ -124,7 +126,8 @@ PROPS = {
                 + jobs(["defer_action"], ["defer_strict"], 300, 3000, variants=["B", "BC", "M", "MA", "MC"])
                 + jobs(["defer_cond"], ["defer", "plain", "queue"], 1500, 60000)
                 + rand_jobs("dfb", ["defer", "queue"], 600, 8000, nthorough=12) + rand_jobs("dfm", ["defer", "queue"], 600, 8000, nthorough=12)
-                + rand_jobs("sto", ["defer"], 0, 6000, nthorough=8),
+                + rand_jobs("sto", ["defer"], 0, 6000, nthorough=8)
+                + jobs(["kleene_defer"], ["defer", "queue"], 800, 30000),
         "nontrivial": ["deferred"],
         "rule": "event sequences over machines with deferring states / Defer actions, public defer_event, posts with the defer API; "
                 "non-trivial = a deferred occurrence was observed pending at a quiescent point; distinct = full-trace hash",
@@ -154,7 +157,7 @@ PROPS = {
                 "and by fork; history memory probed after every op; non-trivial = the sub-machine was re-entered at least once",
     },
     "C09": {
-        "jobs": jobs(["fork_entry", "exit_points", "hist_exit_pt"], ["plain", "posts", "lifecycle"], 1000, 50000, variants=ALLV)
+        "jobs": jobs(["fork_entry", "exit_points", "hist_exit_pt", "exit_points_plain"], ["plain", "posts", "lifecycle"], 1000, 50000, variants=ALLV)
                 + rand_jobs("pseudo", ["plain", "posts"], 600, 8000),
         "nontrivial": ["nested"],
         "rule": "plans on machines with direct<>, fork, entry_pt<> and exit_pt<> rows incl. the exit points' event types sent from outside; "
@@ -242,14 +245,17 @@ PROPS = {
     "C17": {
         "jobs": jobs(["flags", "blocking", "nest_inactive", "nest3_deep"], ["lifecycle", "observe"], 800, 40000, variants=ALLV)
                 + jobs(["flags"], ["observe"], 500, 20000, variants=["B+p3", "M+p3"])
-                + rand_jobs("struct", ["observe"], 600, 6000) + rand_jobs("hist", ["observe"], 0, 6000),
+                + rand_jobs("struct", ["observe"], 600, 6000) + rand_jobs("hist", ["observe"], 0, 6000)
+                # flags inside a sub-machine whose first entry is an explicit entry, a fork or an entry point (second seeded defect C17)
+                + jobs(["fork_entry"], ["observe", "lifecycle"], 800, 30000, variants=ALLV) + rand_jobs("pseudo", ["observe"], 0, 6000),
         "nontrivial": ["flag"],
         "rule": "is_flag_active<F>() and <F,AND> for every flag on every machine level after every op (and, through the observed active "
                 "ids, inside behaviours); non-trivial = some flag was active at some point of the run",
     },
     "C18": {
         "jobs": jobs(["events_hier"], ["plain", "posts", "queue"], 1500, 60000)
-                + rand_jobs("evh", ["plain", "posts", "queue"], 600, 8000, nthorough=12),
+                + rand_jobs("evh", ["plain", "posts", "queue"], 600, 8000, nthorough=12)
+                + jobs(["kleene_defer"], ["plain", "posts", "queue", "defer"], 800, 30000),      # payload through the deferred queue (second seeded defect C18)
         "nontrivial": ["multi_candidate"],
         "rule": "events of a 3-level class hierarchy against exact / base / Kleene triggers competing in one state and across a sub-machine "
                 "boundary, submitted directly, queued and posted; behaviours record the static type, the dynamic type found in the Kleene "
@@ -274,7 +280,10 @@ PROPS = {
     "C19": {
         "jobs": jobs(["nest2_mixed", "order_rows", "conflict_ortho"], ["plain", "posts"], 500, 20000, variants=POLV)
                 + [job(f, "common", 800, 30000, variants=["B", "B+p1", "B+p2", "B+p3"], mode="diff:policy") for f in ["nest2_mixed", "order_rows", "conflict_ortho"]]
-                + [job(f, "common", 800, 30000, variants=["M", "M+p1", "M+p2", "M+p3"], mode="diff:policy") for f in ["nest2_mixed", "order_rows", "conflict_ortho"]],
+                + [job(f, "common", 800, 30000, variants=["M", "M+p1", "M+p2", "M+p3"], mode="diff:policy") for f in ["nest2_mixed", "order_rows", "conflict_ortho"]]
+                # back11 and rows leaving exit points under the policies (second seeded defect C19)
+                + jobs(["exit_points_plain"], ["plain", "posts"], 500, 20000, variants=["B11+p1", "B11+p2", "B11+p3", "B+p1", "B+p3", "M+p2", "M+p3"])
+                + [job("exit_points_plain", "plain", 800, 30000, variants=["B11", "B11+p1", "B11+p2", "B11+p3"], mode="diff:policy")],
         "nontrivial": ["transition"],
         "rule": "every behaviour records the active state ids its fsm argument reports at that instant; lockstep against the policy table "
                 "of the model for the three non-default policies; differential: with that field blanked the four policies give identical traces",
